@@ -2,7 +2,7 @@
 From Coq Require Import NArith List Bool.
 Import ListNotations.
 From DV Require Import Base.Outcome Base.Bytes Base.Lex Base.Names.
-From DV Require Import C17.Model C17.Proofs C18.Model C14.Gen C14.Model C14.Proofs C14.ProofsDenial C14.ProofsSig C14.ProofsL2H C14.ModelN3 C14.ProofsN3 C14.ModelChain C14.ProofsChain C14.ModelDs C14.ProofsDs C14.ModelTa C14.ProofsTa C14.ModelWild C14.ProofsWild C14.ProofsDname C14.ModelNode C14.ProofsNode C14.ModelCache C14.ProofsCache C14.ModelGroups C14.ProofsGroups C14.ModelConn C14.ProofsConn.
+From DV Require Import C17.Model C17.Proofs C18.Model C14.Gen C14.Model C14.Proofs C14.ProofsDenial C14.ProofsSig C14.ProofsL2H C14.ModelN3 C14.ProofsN3 C14.ModelChain C14.ProofsChain C14.ModelDs C14.ProofsDs C14.ModelTa C14.ProofsTa C14.ModelWild C14.ProofsWild C14.ProofsDname C14.ModelNode C14.ProofsNode C14.ModelCache C14.ProofsCache C14.ModelGroups C14.ProofsGroups C14.ModelConn C14.ProofsConn C14.ProofsDnameMulti C14.ModelWildCname C14.ProofsWildCname.
 Local Open Scope N_scope.
 
 Theorem C14_nsec_in_range_spec : forall t o n,
@@ -433,3 +433,40 @@ Theorem C14_bogus_is_servfail : forall req_do req_ad up_ad up_cd,
   o_ad (connection false req_do req_ad up_ad up_cd Bogus) = false.
 Proof. exact bogus_is_servfail. Qed.
 Print Assumptions C14_bogus_is_servfail.
+
+(* ---- proof-only round: wildcard-expanded CNAME steps, multi-record DNAME RRsets *)
+Theorem C14_positive_full_sound : forall H ci cb ngs n3gs q qt maxc gs,
+  positive_full H ci cb ngs n3gs q qt maxc gs = Ok (Some Secure) ->
+  (forall w, In w gs -> a_state (w_g w) <> Bogus) /\
+  exists sname w, chain_w H ci cb ngs n3gs qt gs q sname /\ get_answer_w sname qt gs = Some w /\ In w gs /\
+    a_state (w_g w) = Secure /\
+    match w_ce w with
+    | None => True
+    | Some ce => name_eqb sname (star_label :: ce) = true \/ nonexistence_proof H ci cb ngs n3gs sname (w_signer w) ce
+    end.
+Proof. exact positive_full_sound. Qed.
+Print Assumptions C14_positive_full_sound.
+
+Theorem C14_wild_check_secure_sound : forall H ci cb ngs n3gs nm signer ce,
+  wild_check H ci cb ngs n3gs nm signer ce = Ok (true, Secure) -> nonexistence_proof H ci cb ngs n3gs nm signer ce.
+Proof. exact wild_check_secure_sound. Qed.
+Print Assumptions C14_wild_check_secure_sound.
+
+Theorem C14_positive_full_extends : forall H ci cb ngs n3gs q qt maxc gs s, Forall wf_wgroup gs ->
+  positive_answer_state q qt maxc (map w_g gs) = Ok (Some s) ->
+  positive_full H ci cb ngs n3gs q qt maxc gs = Ok (Some s).
+Proof. exact positive_full_extends. Qed.
+Print Assumptions C14_positive_full_extends.
+
+Theorem C14_moved_to_dname_all_sound : forall cowner ctarget gs,
+  moved_to_dname_all cowner ctarget gs = true ->
+  exists g dt res, In g gs /\ dn_rtype g = rt_DNAME /\ In dt (dn_targets g) /\
+    ends_with cowner (dn_owner g) = true /\ name_eqb cowner (dn_owner g) = false /\
+    map_dname (dn_owner g) dt cowner = Some res /\ name_eqb ctarget res = true.
+Proof. exact moved_to_dname_all_sound. Qed.
+Print Assumptions C14_moved_to_dname_all_sound.
+
+Theorem C14_moved_to_dname_all_agrees : forall cowner ctarget gs,
+  moved_to_dname_all cowner ctarget (map dn_of gs) = moved_to_dname cowner ctarget gs.
+Proof. exact moved_to_dname_all_agrees. Qed.
+Print Assumptions C14_moved_to_dname_all_agrees.
